@@ -6,6 +6,7 @@ touched packages must pass on the baseline's stable list; demo must FAIL; run th
 record which report a VIOLATION; reset the worktree. Writes <seed dir>/confirm.json."""
 import sys, os, json, subprocess, shutil, re, time
 WT = os.environ.get("SEED_WT", "/tmp/wt-lead")
+TJ = "/tmp/seedtest-%s.json" % os.path.basename(WT)
 ENV = dict(os.environ, GOFLAGS="-mod=mod", GOPROXY="off", GOSUMDB="off", GOTOOLCHAIN="local")
 def sh(cmd, cwd=None, timeout=1800, env=ENV):
     p = subprocess.run(cmd, shell=True, cwd=cwd, env=env, stdout=subprocess.PIPE, stderr=subprocess.STDOUT, text=True, timeout=timeout)
@@ -46,9 +47,9 @@ if rc == 0:
             if f.startswith("zz_") : os.remove(os.path.join(root, f))
     pk = subprocess.check_output("git diff --name-only | xargs -n1 dirname | sort -u", shell=True, cwd=WT, text=True).split()
     pk = sorted(set(["./" + p for p in pk if os.path.isdir(os.path.join(WT, p))]))
-    rc, o = sh("go test -vet=off -count=1 -timeout 10m -json %s > /tmp/seedtest.json" % " ".join(pk), cwd=WT)
+    rc, o = sh("go test -vet=off -count=1 -timeout 10m -json %s > %s" % (" ".join(pk), TJ), cwd=WT)
     base = set(json.load(open("/root/.vp/BASELINE.json"))["stable_pass"]); res = {}; pks = set()
-    for l in open("/tmp/seedtest.json"):
+    for l in open(TJ):
         try: e = json.loads(l)
         except Exception: continue
         if e.get("Package"): pks.add(e["Package"])
